@@ -391,6 +391,7 @@ def static_offsets_sources(perm, checked):
         ("m3", "int", "(virtual_<R1&>, virtual_<R2&>)", "r1 r2"),
         ("m4", "int", "(virtual_<R1&>, int, virtual_<R1&>, virtual_<R2&>)", "r1 i r1 r2"),
         ("m5", "int", "(virtual_<R2&>, virtual_<R2&>, int)", "r2 r2 i"),
+        ("m6", "int", "(virtual_<R3&>)", "r3"),
     ]
     decls = "\n".join("declare_method(%s, %s, %s);" % (methods[i][1], methods[i][0], methods[i][2]) for i in perm)
     domain = r'''
@@ -413,9 +414,15 @@ struct Y1 : R1 {};
 struct X2 : R2 {};
 struct Z : X1, X2 {};
 struct W : Y1, X2 {};
+// a third hierarchy, separate at first; J joins it to the others and is registered late (phase 2)
+struct R3 { virtual ~R3() {} };
+struct X3 : R3 {};
+struct J : X3, X1 {};
+struct JJ : X3, X2 {};
+#define CHECKED_POLICY %(checked)d
 %(decls)s
 #endif
-''' % {"base": base, "decls": decls}
+''' % {"base": base, "decls": decls, "checked": 1 if checked else 0}
     main = r'''
 #include "domain.hpp"
 #include <yorel/yomm2/generator.hpp>
@@ -424,6 +431,16 @@ struct W : Y1, X2 {};
 #include <iostream>
 using namespace yorel::yomm2;
 register_classes(R1, R2, X1, Y1, X2, Z, W);
+register_classes(R3, X3);
+#include <new>
+template<class T> struct Slot {
+    alignas(T) static inline unsigned char buf[sizeof(T)];
+    static void make() { new (buf) T(); }
+};
+using Late = Slot<use_classes<J, X3, X1>>;
+using Late2 = Slot<use_classes<JJ, X3, X2>>;
+define_method(int, m6, (R3&)) { return 60; }
+define_method(int, m6, (X3&)) { return 61; }
 define_method(int, m1, (R1&)) { return 10; }
 define_method(int, m1, (X1&)) { return 11; }
 define_method(int, m1, (Z&)) { return 12; }
@@ -450,12 +467,13 @@ int main(int argc, char** argv) {
         g.add_forward_declarations().write_forward_declarations(f);
         g.write_static_offsets(f);
     }
-    std::printf("static %d %d %d %d %d\n",
+    std::printf("static %d %d %d %d %d %d\n",
         (int)detail::has_static_offsets<method_class(int, m1, (virtual_<R1&>))>::value,
         (int)detail::has_static_offsets<method_class(int, m2, (int, virtual_<R2&>))>::value,
         (int)detail::has_static_offsets<method_class(int, m3, (virtual_<R1&>, virtual_<R2&>))>::value,
         (int)detail::has_static_offsets<method_class(int, m4, (virtual_<R1&>, int, virtual_<R1&>, virtual_<R2&>))>::value,
-        (int)detail::has_static_offsets<method_class(int, m5, (virtual_<R2&>, virtual_<R2&>, int))>::value);
+        (int)detail::has_static_offsets<method_class(int, m5, (virtual_<R2&>, virtual_<R2&>, int))>::value,
+        (int)detail::has_static_offsets<method_class(int, m6, (virtual_<R3&>))>::value);
     for (auto& m : P::methods) {
         std::printf("ss %s [", m.name.data());
         std::size_t n = 2 * m.arity() - 1;
@@ -476,6 +494,40 @@ int main(int argc, char** argv) {
         std::snprintf(buf, sizeof buf, "m4(%s,1,%s,%s)", n1[i], n1[k], n2[j]); run(buf, [&] { return m4(*a1[i], 1, *a1[k], *a2[j]); }); }
     for (int i = 0; i < 4; i++) for (int j = 0; j < 4; j++) {
         std::snprintf(buf, sizeof buf, "m5(%s,%s,2)", n2[i], n2[j]); run(buf, [&] { return m5(*a2[i], *a2[j], 2); }); }
+    R3 r3; X3 x3;
+    run("m6(R3)", [&] { return m6(r3); });
+    run("m6(X3)", [&] { return m6(x3); });
+#if CHECKED_POLICY
+    // phase 2: a class registered later (a library loaded afterwards) joins the third hierarchy to the first;
+    // after the second update slots have moved, and offsets generated from the first update are stale
+    Late::make();
+    Late2::make();
+    update<P>();
+    std::printf("phase2\n");
+    for (auto& m : P::methods) {
+        std::printf("ss %s [", m.name.data());
+        std::size_t n = 2 * m.arity() - 1;
+        for (std::size_t i = 0; i < n; ++i) std::printf(i ? ",%zu" : "%zu", m.slots_strides_ptr[i]);
+        std::printf("]\n");
+    }
+    J j; JJ jj;
+    R1* b1[] = {&r1, &x1, &y1, &z, &w, &j};
+    const char* k1[] = {"R1", "X1", "Y1", "Z", "W", "J"};
+    run("m2(3,JJ)", [&] { return m2(3, jj); });
+    run("m5(JJ,X2,2)", [&] { return m5(jj, x2, 2); });
+    run("m6(JJ)", [&] { return m6(jj); });
+    for (int i = 0; i < 6; i++) { std::snprintf(buf, sizeof buf, "m1(%s)", k1[i]); run(buf, [&] { return m1(*b1[i]); }); }
+    for (int jj = 0; jj < 4; jj++) { std::snprintf(buf, sizeof buf, "m2(3,%s)", n2[jj]); run(buf, [&] { return m2(3, *a2[jj]); }); }
+    for (int i = 0; i < 6; i++) for (int jj = 0; jj < 4; jj++) {
+        std::snprintf(buf, sizeof buf, "m3(%s,%s)", k1[i], n2[jj]); run(buf, [&] { return m3(*b1[i], *a2[jj]); }); }
+    for (int i = 0; i < 6; i++) for (int jj = 0; jj < 4; jj++) {
+        std::snprintf(buf, sizeof buf, "m4(%s,1,%s,%s)", k1[i], k1[5 - i], n2[jj]); run(buf, [&] { return m4(*b1[i], 1, *b1[5 - i], *a2[jj]); }); }
+    for (int i = 0; i < 4; i++) for (int jj = 0; jj < 4; jj++) {
+        std::snprintf(buf, sizeof buf, "m5(%s,%s,2)", n2[i], n2[jj]); run(buf, [&] { return m5(*a2[i], *a2[jj], 2); }); }
+    run("m6(R3)", [&] { return m6(r3); });
+    run("m6(X3)", [&] { return m6(x3); });
+    run("m6(J)", [&] { return m6(j); });
+#endif
     return 0;
 }
 '''
@@ -694,3 +746,189 @@ int main() {
        "idmap": "\n".join("    idof[(type_id)&typeid(K%d)] = %d;" % (i, ids[i]) for i in range(n)),
        "polt": polt, "calls": "\n".join("    " + c for c in calls)}
     return src, script
+
+
+# ------------------------------------------------------------------------------------------------
+# C07 / C18: registration objects that come and go (libraries loaded and unloaded)
+
+def prog_lifetimes(reg, rng, checkpoints=3, max_calls=80):
+    """a program whose class registration objects (`use_classes<...>`, the real templates) live in
+    zero-initialised static storage and are constructed and destroyed along a random history, several of
+    them registering the same class - some with the identical list of classes, as two libraries built
+    from the same header do. At each checkpoint every class is registered by at least one live object; the
+    program runs update, prints the class catalog (one line: the sorted class ids of the records) and calls
+    every method. Returns (source, oracle script, expected catalog lines)."""
+    import gen
+    import itertools
+    n = len(reg.parents)
+    anc = gen.ancestors(reg.parents)
+    desc = gen.descendants(reg.parents)
+    ids = [1000 + i for i in range(n)]
+    concrete = [i for i in range(n) if not reg.abstract[i]]
+    cls = []
+    for i in range(n):
+        bases = ", ".join("virtual K%d" % b for b in reg.parents[i])
+        body = ["virtual ~K%d() {}" % i] if not reg.parents[i] else []
+        if reg.abstract[i]:
+            body.append("virtual void abs%d() = 0;" % i)
+        for a in sorted(anc[i]):
+            if reg.abstract[a]:
+                body.append("void abs%d() override {}" % a)
+        cls.append("struct K%d%s { %s };" % (i, (" : " + bases) if bases else "", " ".join(body)))
+    # registration units: (members in order); several per class, often identical
+    units = []
+    for i in range(n):
+        base = [i] + list(reg.parents[i])
+        for k in range(rng.choice([1, 2, 2, 3])):
+            if k == 0 or rng.random() < 0.6:
+                members = list(base)
+            else:
+                members = base + [a for a in sorted(anc[i]) if a not in base and rng.random() < 0.5]
+            units.append((i, members))
+    decl = []
+    for u, (i, members) in enumerate(units):
+        decl.append("using U%d = Slot<use_classes<%s>, %d>;" % (u, ", ".join("K%d" % c for c in members), u))
+    decls, defs, script = [], [], []
+    for m in reg.methods:
+        vps = iter(m["vp"])
+        params = [("int" if ch == "N" else "virtual_<K%d&>" % next(vps)) for ch in m["shape"]]
+        decls.append("declare_method(int, m%d, (%s));" % (m["key"], ", ".join(params)))
+        script.append("method %d %s %s" % (m["key"], m["shape"].replace("P", "V"), " ".join(str(ids[c]) for c in m["vp"])))
+        for d, vp in m["defs"]:
+            it = iter(vp)
+            ps = [("int" if ch == "N" else "K%d&" % next(it)) for ch in m["shape"]]
+            defs.append("define_method(int, m%d, (%s)) { return %d; }" % (m["key"], ", ".join(ps), d))
+            script.append("def %d %d %s" % (m["key"], d, " ".join(str(ids[c]) for c in vp)))
+    # the calls of one checkpoint
+    call_src, call_script = [], []
+    for m in reg.methods:
+        doms = [[c for c in desc[v] if c in concrete] for v in m["vp"]]
+        if any(not d_ for d_ in doms):
+            continue
+        total = 1
+        for d_ in doms:
+            total *= len(d_)
+        tuples = list(itertools.product(*doms)) if total <= max_calls else [tuple(rng.choice(d_) for d_ in doms) for _ in range(max_calls)]
+        for t in tuples:
+            it = iter(t)
+            args = [("7" if ch == "N" else "static_cast<K%d&>(o%d)" % (v, c)) for ch, (v, c) in
+                    zip(m["shape"], _pair_virtual(m["shape"], m["vp"], t))]
+            call_src.append("run([&] { return m%d(%s); });" % (m["key"], ", ".join(args)))
+            call_script.append("call %d %s" % (m["key"], " ".join(str(ids[c]) for c in t)))
+    # the history
+    live, body, catalogs = [], [], []
+    handle = [0]
+    handles = {}
+
+    def create(u):
+        live.append(u)
+        body.append("    U%d::make();" % u)
+        hs = []
+        for c in units[u][1]:
+            handle[0] += 1
+            hs.append(handle[0])
+            listed = [c] + [a for a in units[u][1] if a in anc[c]]
+            script.append("class %d %d %d %s" % (handle[0], ids[c], 1 if reg.abstract[c] else 0, " ".join(str(ids[x]) for x in listed)))
+        handles[u] = hs
+
+    def destroy(u):
+        live.remove(u)
+        body.append("    U%d::kill();" % u)
+        for h in handles.pop(u):
+            script.append("unclass %d" % h)
+
+    def checkpoint():
+        for i in range(n):
+            if not any(units[u][0] == i for u in live):
+                create(rng.choice([u for u in range(len(units)) if units[u][0] == i]))
+        body.append("    checkpoint();")
+        script.append("update")
+        script.extend(call_script)
+        catalogs.append("catalog " + " ".join(str(x) for x in sorted(ids[c] for u in live for c in units[u][1])))
+    first = [min(u for u in range(len(units)) if units[u][0] == i) for i in range(n)]
+    rng.shuffle(first)
+    for u in first:
+        create(u)
+    # every duplicate comes alive while the first registrant still is, so that lifetimes overlap
+    for u in range(len(units)):
+        if u not in live and rng.random() < 0.7:
+            create(u)
+    checkpoint()
+    for _ in range(checkpoints - 1):
+        for _ in range(rng.randint(2, 6)):
+            dead = [u for u in range(len(units)) if u not in live]
+            if live and (not dead or rng.random() < 0.6):
+                # older registrants go first more often than not
+                destroy(live[0] if rng.random() < 0.6 else rng.choice(live))
+            elif dead:
+                create(rng.choice(dead))
+        checkpoint()
+    src = r'''
+#include <yorel/yomm2/keywords.hpp>
+#include <algorithm>
+#include <cstdio>
+#include <map>
+#include <new>
+#include <typeinfo>
+#include <vector>
+using namespace yorel::yomm2;
+%(classes)s
+// a registration object in zero-initialised static storage, as in a library that is loaded and unloaded
+template<class T, int N> struct Slot {
+    alignas(T) static inline unsigned char buf[sizeof(T)];
+    static inline T* p = nullptr;
+    static void make() { p = new (buf) T(); }
+    static void kill() { p->~T(); p = nullptr; }
+};
+%(units)s
+%(decls)s
+%(defs)s
+%(objects)s
+static std::map<type_id, int> idof;
+static int name(type_id t) { return idof.count(t) ? idof[t] : -1; }
+template<class F> static void run(F f) {
+    try { std::printf("ran %%d\n", f()); }
+    catch (const resolution_error& e) {
+        std::printf("raised resolution status=%%s arity=%%d types=[", e.status == resolution_error::no_definition ? "ni" : "amb", (int)e.arity);
+        for (std::size_t i = 0; i < e.arity; ++i) std::printf(i ? ",%%d" : "%%d", name(e.types[i]));
+        std::printf("]\n");
+    }
+    catch (const unknown_class_error& e) { std::printf("raised unknown_class %%d\n", name(e.type)); }
+}
+static void checkpoint() {
+    try { update(); std::printf("update ok\n"); }
+    catch (const unknown_class_error& e) { std::printf("update raised unknown_class %%d\n", name(e.type)); }
+    std::vector<int> recs;
+    for (auto& c : YOMM2_DEFAULT_POLICY::classes) recs.push_back(name(c.type));
+    std::sort(recs.begin(), recs.end());
+    std::printf("catalog");
+    for (int r : recs) std::printf(" %%d", r);
+    std::printf("\n");
+%(calls)s
+}
+int main() {
+%(idmap)s
+    YOMM2_DEFAULT_POLICY::error = [](const error_type& e) {
+        if (auto r = std::get_if<resolution_error>(&e)) throw *r;
+        if (auto r = std::get_if<unknown_class_error>(&e)) throw *r;
+    };
+%(body)s
+    return 0;
+}
+''' % {"classes": "\n".join(cls), "units": "\n".join(decl), "decls": "\n".join(decls), "defs": "\n".join(defs),
+       "objects": "\n".join("static K%d o%d;" % (c, c) for c in concrete),
+       "idmap": "\n".join("    idof[(type_id)&typeid(K%d)] = %d;" % (i, ids[i]) for i in range(n)),
+       "calls": "\n".join("    " + c for c in call_src), "body": "\n".join(body)}
+    return src, script, catalogs
+
+
+def _pair_virtual(shape, vp, t):
+    """for each parameter of the shape: (declared class, argument class) of the virtual ones, (None, None) else"""
+    out, k = [], 0
+    for ch in shape:
+        if ch == "N":
+            out.append((None, None))
+        else:
+            out.append((vp[k], t[k]))
+            k += 1
+    return out
